@@ -95,11 +95,18 @@ def main(ctx):
     import os
     import tempfile
     from .. import tlc
-    streams = []
+    streams, hdronly = [], 0
     for ln in lines:
         rs = [e["b"] for e in ln["ev"] if e["a"] == "send"]
-        if len(rs) >= 2 and len(streams) < (12 if ctx.quick else 60):
+        short = any(len(b) == 24 for b in rs)              # a header-only frame (an error reply)
+        if len(rs) >= 2 and (len(streams) < (12 if ctx.quick else 60) or (short and hdronly < 4)):
             streams.append([x for b in rs for x in b])
+            hdronly += 1 if short else 0
+    # header-only frames also in the middle of a stream: error replies of several sessions back to back
+    shorts = [b for ln in lines for b in [e["b"] for e in ln["ev"] if e["a"] == "send"] if len(b) == 24][:2]
+    longs = [b for ln in lines for b in [e["b"] for e in ln["ev"] if e["a"] == "send"] if len(b) > 40][:2]
+    if shorts and longs:
+        streams.append(list(longs[0]) + list(shorts[0]) + list(longs[-1]) + list(shorts[-1]))
     cjobs = []
     for st in streams:
         L = len(st)
@@ -118,7 +125,7 @@ def main(ctx):
     fd, path = tempfile.mkstemp(prefix="framing_", suffix=".ndjson")
     with os.fdopen(fd, "w") as f:
         for r in cres:
-            f.write(json.dumps({k: r[k] for k in ("stream", "got", "end")}, separators=(",", ":")) + "\n")
+            f.write(json.dumps({k: r[k] for k in ("stream", "got", "end", "when", "late", "cuts")}, separators=(",", ":")) + "\n")
     try:
         r3 = tlc.run("FramingTrace", "FramingTrace.cfg", env={"TRACE_FILE": path}, timeout=1700)
     finally:
@@ -160,14 +167,26 @@ def client_framing(job):
             at += n
     script = [c for c in script if c is None or len(c)] + ([data[at:]] if at < len(data) else []) + [b""]
 
+    fed = {"n": 0, "eof": False}
+    cuts, c = [], 0
+    for x in script:
+        if x:
+            c += len(x)
+            cuts.append(c)
+
     class Scripted(client.client):
         def recvfrom(self, timeout=None):
             if not script:
+                fed["eof"] = True
                 return b"", self.addr
-            return script.pop(0), self.addr
+            x = script.pop(0)
+            if x is not None:
+                fed["n"] += len(x)
+                fed["eof"] = fed["eof"] or len(x) == 0
+            return x, self.addr
     cli = Scripted(host=ls.getsockname()[0], port=ls.getsockname()[1], timeout=2)
     peer, _ = ls.accept()
-    got, end = [], "stop"
+    got, end, when, late = [], "stop", [], 0
     try:
         with cli:
             for _ in range(10 * len(data) + 50):
@@ -177,13 +196,16 @@ def client_framing(job):
                     break
                 if r is not None:
                     got.append([r.enip.command, list(bytearray(r.enip.sender_context.input))])
+                    when.append(fed["n"])
+                    if fed["eof"] and not late:
+                        late = len(got)
             else:
                 end = "error"
     except Exception:
         end = "error"
     finally:
         peer.close()
-    return {"stream": list(data), "got": got, "end": end, "sizes": sizes}
+    return {"stream": list(data), "got": got, "end": end, "sizes": sizes, "when": when, "late": late, "cuts": cuts or [0]}
 
 
 def _cum(sz):
